@@ -2,7 +2,7 @@
 tracing: H3', H5, H9) — kind inference of HRef chains + structural rules."""
 import ast
 
-from ..core import AnalysisError, norm, short, walk_local, parent_chain
+from ..core import AnalysisError, norm, short, walk_local, parent_chain, reaching_assign
 from ..kinds import Typer, TOP, obj, kinds_of, expand, NONE, join
 from . import register
 
@@ -178,26 +178,6 @@ def _guarded_by_alias(f, call, e):
     return False
 
 
-def _reaching_assign(node, name):
-    """the assignment to `name` that reaches `node` in straight-line code (nearest earlier sibling assignment in an enclosing block);
-    None when there is none or the nearest candidate is conditional"""
-    prev = node
-    for p in parent_chain(node):
-        for fld in ("body", "orelse", "finalbody"):
-            lst_ = getattr(p, fld, None)
-            if isinstance(lst_, list) and any(prev is s_ for s_ in lst_):
-                i = [k for k, s_ in enumerate(lst_) if prev is s_][0]
-                for s_ in reversed(lst_[:i]):
-                    if isinstance(s_, ast.Assign) and any(isinstance(t, ast.Name) and t.id == name for t in s_.targets):
-                        return s_
-                    if any(isinstance(x, ast.Name) and x.id == name and isinstance(x.ctx, ast.Store) for x in ast.walk(s_)):
-                        return None
-        if isinstance(p, (ast.FunctionDef, ast.AsyncFunctionDef)):
-            break
-        prev = p
-    return None
-
-
 def _is_closure_site(f, call):
     if f.name in CLOSURE_FUNCS:
         return True
@@ -260,7 +240,7 @@ def _typed_sites(ctx, R, rid, closure):
                 if id(v) in nullcap:
                     res = True
                 elif isinstance(v.args[0], ast.Name):
-                    res = tainted(_reaching_assign(assign, v.args[0].id), depth + 1)
+                    res = tainted(reaching_assign(assign, v.args[0].id), depth + 1)
             memo[id(assign)] = res
             return res
 
@@ -269,7 +249,7 @@ def _typed_sites(ctx, R, rid, closure):
                 continue
             src = None
             if isinstance(y.value, ast.Name):
-                src = _reaching_assign(y, y.value.id)
+                src = reaching_assign(y, y.value.id)
             elif isinstance(y.value, ast.Call) and _is_href_factory(y.value) and id(y.value) in nullcap:
                 src = ast.Assign(targets=[], value=y.value)
             if src is None:
